@@ -288,7 +288,10 @@ pub fn parse_file_internal(context: &ParseContext) -> Result<(), Error> {
 #[derive(Clone, Copy, PartialEq, Eq, Debug)]
 pub enum NextItem {
     NewLine,
+    /// skip to the next `.elif`, `.else` or `.endif` of the current conditional
     EndIf,
+    /// a branch of the current conditional was assembled: skip to its `.endif`
+    EndIfAll,
     EndMacro,
     EndFile,
 }
@@ -297,8 +300,11 @@ fn skip<'a>(
     iter: &mut dyn Iterator<Item = (usize, &'a str)>,
     context: &ParseContext,
     ni: NextItem,
+    redelivered: &mut bool,
 ) -> Option<(usize, &'a str)> {
     let mut scoup_count = 0;
+    // set when the returned line is an `.elif` whose condition still has to be evaluated
+    *redelivered = false;
     match ni {
         NextItem::NewLine => iter.next(),
         NextItem::EndFile => None,
@@ -325,7 +331,7 @@ fn skip<'a>(
                 while let Some((num, line)) = iter.next() {
                     if let Ok(item) = document::line(line) {
                         if let Document::DirectiveLine(_, directive, _) = item {
-                            if other == NextItem::EndIf {
+                            if other == NextItem::EndIf || other == NextItem::EndIfAll {
                                 if directive == Directive::If
                                     || directive == Directive::IfDef
                                     || directive == Directive::IfNDef
@@ -336,7 +342,14 @@ fn skip<'a>(
                                     || directive == Directive::ElIf
                                 {
                                     if scoup_count == 0 {
+                                        if other == NextItem::EndIfAll
+                                            && directive != Directive::Endif
+                                        {
+                                            // a branch was already assembled: no other one counts
+                                            continue;
+                                        }
                                         ret = if directive == Directive::ElIf {
+                                            *redelivered = true;
                                             Some((num, line))
                                         } else {
                                             iter.next()
@@ -369,9 +382,10 @@ pub fn parse_iter<'a>(
     context: &ParseContext,
 ) -> Result<(), Error> {
     let mut next_item = NextItem::NewLine;
+    let mut redelivered = false;
 
     loop {
-        if let Some((line_num, line)) = skip(iter, context, next_item) {
+        if let Some((line_num, line)) = skip(iter, context, next_item, &mut redelivered) {
             next_item = NextItem::NewLine; // clear conditional flag to typical state
             let line_num = line_num + 1;
             let parsed_item = document::line(line);
@@ -403,8 +417,15 @@ pub fn parse_iter<'a>(
                                 ));
                             }
                         }
-                        let item = d.parse(&d_op_args, &context, CodePoint { line_num, num: 2 })?;
-                        next_item = item;
+                        next_item = if d == Directive::Else
+                            || (d == Directive::ElIf && !redelivered)
+                        {
+                            // reached from an assembled branch: the rest of the conditional
+                            // is skipped without looking at it
+                            NextItem::EndIfAll
+                        } else {
+                            d.parse(&d_op_args, &context, CodePoint { line_num, num: 2 })?
+                        };
                     }
                     Document::EmptyLine => {}
                     _ => {}
